@@ -36,30 +36,42 @@ CHECKS = {
     tech="Lean 4 proof (frame rule + induction over histories) + measured effect summaries checked against the model's Safe predicate",
     ref="§3 C14"),
  "C18": dict(
-    text="Refinement specification in Lean 4 (a batch tensor is the list of its elements; supported batch operations are the ordinary "
-         "operations element by element; elem_add/elem_mul/elem_getitem, batch size preserved) so that the C02/C03 theorems transfer to "
-         "every element (addB_dense, mulB_dense); the list of functions that reject batch tensors is an obligation over the table "
-         "re-extracted from /repo on every run. That the separate batched code paths refine to this specification is established by "
-         "the correspondence: every batch element of +, * and indexing results is compared core-for-core with the non-batch Lean model "
-         "on that element, and torch(), construction (with/without rank limits), scalar ops, rounding, orthogonalisation, batch-mode "
-         "selection element by element against the ordinary operation; guarded functions must raise.",
-    note="The theorems are about the refinement specification, which is definitional; the strength of this check is the element-wise "
-         "correspondence (sampling) and the source-derived guard table. Trusted: Lean kernel + standard axioms; harness glue; the "
-         "non-batch implementation as reference for rank-limited construction and rounding. The batched `*` picks between its two "
-         "equivalent layouts with a mode size shifted by the batch dimension (counted, dense result checked).",
-    tech="Lean 4 refinement specification + source-derived obligation + element-wise differential correspondence against the non-batch model",
+    text='Lean 4: (1) an einsum semantics (Model/Einsum: parse, eval by sums over the contracted letters) with the theorem '
+         'einsum_batch_lift — for EVERY spec, fresh batch letter, sizes and operands, slot b of the batched contraction equals '
+         'the plain contraction of the b-th slices (no mixing between batch elements) — plus invariance under renaming of '
+         'letters; (2) the source tie: extract.py re-derives on every run, from the `if …batch…: A else: B` pattern of /repo, '
+         'the (batched, plain) einsum pairs of the library (37 pairs in 11 functions); batched_einsums_are_lifts (decide over '
+         'the regenerated table) shows each batched string is the lift of its plain partner, hence batched_einsums_slicewise for '
+         'all of them; pairs_complete / unpaired_from_source pin the table itself; (3) the refinement specification (a batch '
+         'tensor is the list of its elements; elem_add/elem_mul/elem_getitem; C02/C03 theorems transfer) and the list of '
+         'functions that reject batch tensors, also re-extracted. Correspondence: the einsum evaluator against torch.einsum on '
+         'every equation string of the source; every batch element of +, * and indexing results core-for-core against the '
+         'non-batch Lean model; torch(), construction, scalar ops, rounding, orthogonalisation, batch-mode selection element by '
+         'element against the ordinary operation; guarded functions must raise.',
+    note='The batched branches also contain reshapes, _core_kron(…, batch), concatenations and batched QR/SVD: those are tied to '
+         'the specification only by the element-wise correspondence (sampling). Trusted: Lean kernel + standard axioms; '
+         'extract.py (the translator of the einsum table); harness glue; the non-batch implementation as reference for '
+         'rank-limited construction and rounding.',
+    tech="Lean 4 proof (einsum semantics, batch-lift theorem) + translator-derived obligations over the source's einsum strings "
+         '+ element-wise differential correspondence against the non-batch model',
     ref="§3 C18"),
  "C19": dict(
-    text="Lean 4 theorems: the index interleaving of the TT-matrix constructor is undone by torch() for every factorisation into any number "
-         "of factors; the Kronecker routines accept exactly all-ranks-1, square-block matrices (the repaired inverted test) and reject "
-         "rank>1 / non-square input; for Kronecker products (Mathlib ⊗ₖ) the determinant formula det A^n·det B^m used by the code "
-         "(2 and 3 blocks), the block-wise inverse and the block-wise Cholesky-type factor reproduce the dense results. The decision "
-         "logic and the index maps are compared with /repo on generated inputs; decompression, tt_multiply/cp_multiply, trace, "
-         "determinant/slogdet/inv/cholesky values (batch and non-batch) by NumPy/torch.linalg oracles.",
-    note="Trusted: Lean kernel + standard axioms; torch.linalg.det/inv/cholesky per block (kernels); harness glue; sampling. Uniqueness "
-         "of the Cholesky factor (lower-triangular, positive diagonal) is not proved (absent from Mathlib): cholesky_two_blocks shows "
-         "L·Lᵀ = A⊗B. tt_multiply/cp_multiply/trace have no Lean theorem (oracle only); d>3 blocks follow the same induction (not stated).",
-    tech="Lean 4 proof (index arithmetic; Mathlib's Kronecker determinant/inverse lemmas) + differential correspondence + linalg oracles",
+    text='Lean 4 theorems over a model that follows matrix.py step by step on flat row-major arrays (every reshape(…,-1,…) as '
+         "size / known dims, every einsum by decoding and re-encoding flat positions): trace_eq — the einsum('i,iaaj->j') sweep "
+         'is the trace of the decompressed matrix; tt_multiply_eq / tt_multiply_dense — tt_multiply(ttm, x) = x @ ttm.torch() '
+         'for a batch of vectors, any number of cores and ranks; cp_multiply_eq / _dense likewise for CP matrices; the index '
+         'interleaving of the constructor is undone by torch() (split_pair, unflat_flat_roundtrip); the Kronecker routines '
+         'accept exactly all-ranks-1, square-block matrices; for N blocks of any sizes (Mathlib ⊗ₖ, induction) the determinant '
+         'loop Π det(A_k)^(rows/n_k) is the determinant of the Kronecker product (det_n_blocks, determinant_eq with kron_entry: '
+         'an all-ranks-1 TT matrix decompresses to the Kronecker product of its blocks), block-wise inverse = inverse, '
+         'block-wise Cholesky-type factors give L·Lᵀ = A. Correspondence: torch(), trace, tt_multiply, cp_multiply and the '
+         "determinant loop of the compiled model on the implementation's own cores against the implementation (1e-9); decision "
+         'logic and index maps exactly; slogdet/inv/cholesky values (batch and non-batch) by NumPy/torch.linalg oracles.',
+    note='Trusted: Lean kernel + standard axioms; torch.linalg.det/inv/cholesky per block (kernels); harness glue; sampling. Not '
+         'proved: the construction round trip TTMatrix(M).torch() = M (needs TT-SVD; CP needs ALS) — oracle only; '
+         'lower-triangularity/uniqueness of the Kronecker Cholesky factor; slog_determinant; the batch (5-way core) trace.',
+    tech="Lean 4 proof (flat-index arithmetic of the reshapes, sweep invariants; Mathlib's Kronecker determinant/inverse lemmas "
+         'by induction over the block list) + differential correspondence + linalg oracles',
     ref="§3 C19"),
  "C17": dict(
     text="Lean 4 theorems (any field, any matrix sizes): one swap of the maxvol loop preserves C·A[idx] = A whenever the pivot is non-zero, "
@@ -176,43 +188,73 @@ CHECKS = {
     tech="Lean 4 proof (structural induction over formula trees via C02.expr_dense) + differential correspondence + exhaustive truth tables",
     ref="§3 C15"),
  "C16": dict(
-    text="Lean 4 theorems by induction on the chain of shift-register cores, for every N, every per-position alphabet and every weight "
-         "list: weight_mask is 1 exactly on strings whose symbols sum to a requested weight (0 elsewhere), weight returns the sum, the "
-         "open trailing bond of weight_one_hot is the one-hot vector of the sum (overflow dropped). The three automata are tied to /repo "
-         "core-for-core (exact); accepted_inputs (order, multiplicity) by an exhaustive argwhere oracle on small integer TTs.",
-    note="Trusted: Lean kernel + standard axioms; harness glue; sampling. accepted_inputs has no Lean model (its DFS with right-product "
-         "pruning is compared with np.argwhere with multiplicity); .round() on float noise inside accepted_inputs is outside.",
-    tech="Lean 4 proof (induction over the automaton's cores) + exact differential correspondence + enumeration oracle",
+    text='Lean 4 theorems by induction on the chain of cores, for every N, every per-position alphabet and every weight list: '
+         'weight_mask is 1 exactly on strings whose symbols sum to a requested weight (0 elsewhere), weight returns the sum, the '
+         'open trailing bond of weight_one_hot is the one-hot vector of the sum (overflow dropped). accepted_inputs is modelled '
+         'twice — at list level and at array level (the exact sequence of writes Xs[bound+c[i] : bound+c[i+1], mu] = i with the '
+         "code's cumulative counts) — and proved: for every tensor of any format whose entries are natural numbers, the output "
+         'IS the lexicographic enumeration of the index box with each index repeated as often as its value '
+         '(accepted_inputs_spec_any, accepted_inputs_arr_spec; corollaries: membership, multiplicity, sortedness, row count = '
+         'round(tn.sum)); the array-level model refines the list-level one whenever no call overflows its reserved rows. All '
+         'automata and both accepted_inputs models are tied to /repo exactly (cores, rows).',
+    note='Trusted: Lean kernel + standard axioms; harness glue; sampling. The rounding inside accepted_inputs is a parameter '
+         'toNat with toNat(n) = n; float noise (tensors after orthogonalisation/rounding) and negative or non-integer entries '
+         'are outside the theorem (the agent-found behaviours on such inputs are recorded in DESIGN §6.9).',
+    tech="Lean 4 proof (induction over the automaton's cores; prefix-count lemma left·fiber = Σ over completions) + exact "
+         'differential correspondence + enumeration oracle',
     ref="§3 C16"),
  "C20": dict(
-    text="Lean 4 theorems: tn.partial along mode d is the stencil matrix applied to mode d only, so every entry of the compressed "
-         "derivative is the stencil row of its own index applied to the dense fibre (L1, any number of modes/ranks/formats); stencil rows: "
-         "interior (x[i+1]−x[i−1])/step, linearly extrapolated ends, periodic wrap; constants along d are annihilated; linearity. The model "
-         "(orders 1..3, periodic, bounds) is tied to /repo core-for-core; gradient/divergence/curl/laplacian/partialset and the step "
-         "convention (step of mode d from mode d's own bounds and size) by a dense NumPy stencil oracle.",
-    note="Trusted: Lean kernel + standard axioms; harness glue; NumPy stencil as oracle; sampling. c = 1/step enters the model as a "
-         "scalar (exact rational in the correspondence); affine→constant and the grad/div/curl/laplacian combinations are checked by the "
-         "oracle only; partialset (forward differences selected by a weight mask) has no Lean model.",
-    tech="Lean 4 proof (L1 with a single-mode matrix; stencil row lemmas) + differential correspondence + dense oracle search",
+    text='Lean 4 theorems: tn.partial along mode d is the stencil matrix applied to mode d only (L1, any number of '
+         'modes/ranks/formats); the stencil as the code computes it step by step (pad, extrapolate, difference; index-list rolls '
+         "for periodic) equals the model's matrix for every n ≥ 1 (stencilStepsNP_eq, stencilStepsPer_eq, size-1 mode included "
+         'after a model repair); rows: interior (x[i+1]−x[i−1])/step, linearly extrapolated ends, periodic wrap; any order = the '
+         'dense operator iterated (partialN_dense; order 2 is the wide stencil); linear (add, scalar multiples), annihilates '
+         'constants, maps affine fibres to constants (partial1_affine_const); a list of modes = composition of commuting '
+         "single-mode operators (partialList_dense, partialList_perm_dense); Python's sum (0 + p0 + …), gradient, divergence, "
+         'curl, laplacian = the corresponding combinations, asserts modelled as Option (laplacian_dense, divergence_dense, '
+         'curl_dense); partialset = stacked forward differences × weight mask × optional user mask (partialset_dense, '
+         'maskWith_dense, raising sizes: stackDiffs_raise). All of these models are tied to /repo core-for-core and by error '
+         "class; the step convention (step of mode d from mode d's own bounds and size) additionally by a dense NumPy stencil "
+         'oracle.',
+    note='Trusted: Lean kernel + standard axioms; harness glue; NumPy stencil as oracle; sampling. c = 1/step enters the model '
+         'as a scalar (exact rational in the correspondence: the computation of c from bounds is harness-side and checked by the '
+         'oracle). active_subspace and dgsm are not modelled.',
+    tech='Lean 4 proof (L1 with a single-mode matrix; stencil row lemmas; commuting operators; weight-mask automaton of C16) + '
+         'differential correspondence + dense oracle search',
     ref="§3 C20"),
  "C06": dict(
-    text="Lean 4 theorems: the interface sweep of tn.dot returns Σ t·u (any modes/ranks/formats), normsq, symmetry, the dist identity "
-         "‖t‖²+‖u‖²−2⟨t,u⟩ = Σ(t−u)² (so the clamped radicand is the squared distance also for negative inner products), sums over "
-         "modes as ones-matrices applied per mode (L1). Model (dot, sum with/without keepdim through the C03 getitem model) tied to "
-         "/repo by exact comparison; all other metrics (partial dot, mean/var/std, moments, metric laws, marginals) by a dense oracle search.",
-    note="Trusted: Lean kernel + standard axioms; harness glue; NumPy oracle; sampling. Outside the theorems: square roots and clamps "
-         "(norm, dist, std are sqrt of proved quantities), float cancellation in the dist radicand, raw/normalised moments (rounding "
-         "algorithm, oracle at 1e-4), triangle inequality (checked numerically only).",
-    tech="Lean 4 proof (interface-matrix invariant, five-fold sum reordering, L1) + differential correspondence + dense oracle search",
+    text='Lean 4 theorems: the interface sweep of tn.dot returns Σ t·u (any modes/ranks/formats), normsq, symmetry, the dist '
+         'identity ‖t‖²+‖u‖²−2⟨t,u⟩ = Σ(t−u)² (so the clamped radicand is the squared distance also for negative inner '
+         "products), metric laws of dist over ordered rings and over ℝ with the code's sqrt∘clamp (symmetric, ≥ 0, zero iff the "
+         "arrays agree on the box); sums over modes as ones-matrices applied per mode (L1), 'summing removes exactly the summed "
+         "modes' with the squeeze traced through the C03 getitem model (sum_removes_modes, getitem_squeeze); mean "
+         '(normalised-vector path and marginals path, all modes / subset / keepdim), var (both paths) equal the dense '
+         'definitions over any field, with the ZeroDivisionError of an empty mode modelled (mean_dense, mean_marginals_dense, '
+         'var_dense, var_marginals_dense, mean_raises). Models of dot, sum, mean, weighted mean, var tied to /repo by exact '
+         'comparison (cores, scalars, error class); partial dot, std, moments, rmse/r² by a dense oracle search.',
+    note='Trusted: Lean kernel + standard axioms; harness glue; NumPy oracle; sampling. Outside the theorems: square roots and '
+         'clamps of std/norm (sqrt of proved quantities), float cancellation in the dist radicand, raw/normalised moments '
+         '(rounding algorithm, oracle at 1e-4), triangle inequality (checked numerically only); marginal vectors summing to 0 '
+         '(nan in the code, x/0 = 0 in Lean) are excluded by hypothesis.',
+    tech='Lean 4 proof (interface-matrix invariant, five-fold sum reordering, L1, squeeze through the indexing model) + '
+         'differential correspondence + dense oracle search',
     ref="§3 C06"),
  "C12": dict(
-    text="Lean 4 theorems: every routine acting on the spatial index of modes is linModes with one matrix per mode (general theorem "
-         "linModes_dense = tensor-times-matrix along any modes); gathers (flip, tiling, slicing) re-index the array; cumsum, zero padding "
-         "as instances; eye(n,m) is the identity; full/ones/zeros constant; transposition reverses the index. Models of flip/cumsum/pad/ttm "
-         "tied to /repo core-for-core; cat, repeat, pad with a constant, meshgrid, mask, reduce and the creation routines by a dense oracle search.",
-    note="Trusted: Lean kernel + standard axioms; harness glue; NumPy/PyTorch as oracle; sampling. cat/reduce/mask/meshgrid/arange/"
-         "linspace/logspace/gaussian/rand have no Lean model of their own (cat = embedding + C02 add; mask = C02 mul after a gather).",
-    tech="Lean 4 proof (L1 at code level: applyMaps, selection lemma) + differential correspondence + dense oracle search",
+    text='Lean 4 theorems: every routine acting on the spatial index of modes is linModes with one matrix per mode (general '
+         'theorem linModes_dense = tensor-times-matrix along any modes); gathers (flip, tiling, slicing) re-index the array; '
+         'cumsum, zero padding (explicit: inside the box the entry, outside 0) and padding with a constant (padC_dense: pad + '
+         "fill·(ones − padded ones), as the code builds it) ; tn.cat for ANY number of operands as the code's loop (embed every "
+         'operand in zeros of the total size at its offset, accumulate with +): catN_dense — the entry at idx is the entry of '
+         'the operand whose block contains idx[dim] at the shifted index — with the guards of cat modelled as Except and proved '
+         'equivalent to the hypotheses (cat_ok / cat_ok_inv / cat_shape_error / cat_dim_error); eye(n,m) is the identity; '
+         'full/ones/zeros constant; transposition reverses the index. Models of flip/cumsum/pad/ttm/cat/pad-with-constant tied '
+         'to /repo core-for-core (and error class for cat); repeat, meshgrid, mask, reduce and the creation routines by a dense '
+         'oracle search.',
+    note='Trusted: Lean kernel + standard axioms; harness glue; NumPy/PyTorch as oracle; sampling. '
+         'reduce/mask/meshgrid/arange/linspace/logspace/gaussian/rand have no Lean model of their own here (tn.mask is modelled '
+         "in C20's partialset: maskWith_dense).",
+    tech='Lean 4 proof (L1 at code level: applyMaps, selection lemma; induction over the operand list of cat) + differential '
+         'correspondence + dense oracle search',
     ref="§3 C12"),
  "C11": dict(
     text="Lean 4 theorems about the model of _setitem (this − restriction + embedded value): selected entries take the value, all others "
